@@ -306,7 +306,10 @@ def main(ctx):
         if len(nk) < 3 or c0["norm"] != "inf" or c0["integrand"] not in ("peak", "vec") or c0["strategy"] not in ("dw", "es", "cell", "es_gl"):
             continue
         for tol1, mx1 in ((1e10, None), (1e-1, nk[1]), (-1, nk[0]), (0, nk[1])):
-            for tol2, mx2 in ((0, nk[2]), (-1, nk[2]), (1e-3, nk[-1]), (1e10, None), (0, nk[0])):
+            # (1e-1, None): a continuation WITHOUT a point limit may only end by its tolerance, whatever limit the first phase had
+            for tol2, mx2 in ((0, nk[2]), (-1, nk[2]), (1e-3, nk[-1]), (1e10, None), (0, nk[0]), (1e-1, None)):
+                if mx2 is None and tol2 < 1e10 and not (res.get("errs") and min(res["errs"]) <= tol2):
+                    continue        # the tolerance is not reached within the baseline: the run would not end
                 cases.append({"config": dict(c0, tol=tol1, max_evaluations=mx1, then={"tol": tol2, "max_evaluations": mx2})})
                 ncont += 1
                 if (tol1, mx1) in ((1e-1, nk[1]), (0, nk[1])):
